@@ -1,7 +1,8 @@
 /* Set-up functions that CONodeInit runs and small accessors (C20: a fresh node starts with silent services; C15: no error is
  * active after initialisation; C12/C13: PDOs inactive until OPERATIONAL; C18: the node id changes only while initialising).
  * EXPLICIT form over stubs of the dictionary.  -DVW_OP=0 CONmtSetNodeId 1 COTPdoClear 2 CORPdoClear 3 COSyncRestart
- * 4 COEmcyInit (the history type's Init from the real co_emcy_hist.c) 5 CONmtGetMode / CONmtGetNodeId.
+ * 4 COEmcyInit (the history type's Init from the real co_emcy_hist.c) 5 CONmtGetMode / CONmtGetNodeId
+ * 6 COObjTypeUserSDOAbort (C04: the application-supplied abort code) 7 COObjInit.
  * Memory before the call is ARBITRARY (a CO_NODE on the stack or re-used memory is not zeroed). */
 #include "vw_defs.h"
 #include "vw_node.h"
@@ -24,6 +25,9 @@ int16_t COIfCanSend(struct CO_IF_T *cif, CO_IF_FRM *frm) { N_SEND++; return 0; }
 int16_t COTmrCreate(CO_TMR *tmr, uint32_t s, uint32_t c, CO_TMR_FUNC f, void *p) { N_TMR++; return -1; }
 int16_t COTmrDelete(CO_TMR *tmr, int16_t id) { N_TMR++; return 0; }
 void CONodeFatalError(void) { __CPROVER_assert(0, "CONodeFatalError must not be reached"); }
+uint32_t N_INIT; CO_OBJ *A_INITOBJ; CO_ERR H_INITRES;
+static CO_ERR t_init(struct CO_OBJ_T *obj, struct CO_NODE_T *node) { N_INIT++; A_INITOBJ = obj; return H_INITRES; }
+static const CO_OBJ_TYPE T_WITH = { 0, t_init, 0, 0, 0 }, T_WITHOUT = { 0, 0, 0, 0, 0 };
 uint8_t G_I, G_J;
 void harness(void)
 {
@@ -77,6 +81,19 @@ void harness(void)
     __CPROVER_assert(N_SEND == 0 && N_TMR == 0, "init transmits nothing and touches no timer");
     if (!no1001 && !no1014 && H_HAS[2] && H_HISTN == 8) { __CPROVER_assert(0, "REACH:a"); }
     if (no1001) { __CPROVER_assert(0, "REACH:b"); }
+#elif VW_OP == 6
+    /* the application-supplied abort code reaches the server that is transferring this object, and no other server */
+    uint32_t a0[CO_SSDO_N]; _Bool hit = 0; int first = -1; uint32_t H_AB = H_OSZ[0];
+    for (int n = 0; n < CO_SSDO_N; n++) { V_NODE.Sdo[n].Obj = H_HAS[n % 3] ? &V_EO[0] : &V_EO[1]; a0[n] = V_NODE.Sdo[n].Abort; if (first < 0 && V_NODE.Sdo[n].Obj == &V_EO[0]) { first = n; } }
+    COObjTypeUserSDOAbort(&V_EO[0], &V_NODE, H_AB);
+    for (int n = 0; n < CO_SSDO_N; n++) { __CPROVER_assert(V_NODE.Sdo[n].Abort == (n == first ? H_AB : a0[n]), "the abort code is handed to the server transferring the object; every other server keeps its own"); }
+    if (first >= 0) { __CPROVER_assert(0, "REACH:a"); } else { __CPROVER_assert(0, "REACH:b"); }
+#elif VW_OP == 7
+    /* COObjInit: the type's Init runs exactly once for an entry whose type has one; entries of a type without Init are fine */
+    V_EO[0].Type = H_HAS[0] ? &T_WITH : &T_WITHOUT; N_INIT = 0;
+    CO_ERR e = COObjInit(&V_EO[0], &V_NODE);
+    __CPROVER_assert(N_INIT == (H_HAS[0] ? 1u : 0u) && (H_HAS[0] ? (A_INITOBJ == &V_EO[0] && e == H_INITRES) : e == CO_ERR_NONE), "COObjInit: the type-specific initialisation runs exactly once for this entry and its result is passed on");
+    if (H_HAS[0]) { __CPROVER_assert(0, "REACH:a"); } else { __CPROVER_assert(0, "REACH:b"); }
 #else
     CO_MODE m = CONmtGetMode(&V_NODE.Nmt); uint8_t id = CONmtGetNodeId(&V_NODE.Nmt);
     __CPROVER_assert(m == V_NODE.Nmt.Mode && id == V_NODE.NodeId, "the accessors deliver the current NMT state and node id");
